@@ -444,7 +444,16 @@ func (u *Unit) lockOp(st *State, call *ast.CallExpr, op string) {
 			if err != nil {
 				u.reject("contract error: %v", err)
 			} else {
-				u.oblige(st, "lock-inv", ls.mu+"@"+u.seqLabel("lock-inv", call.Pos()), t, call.Pos())
+				// one obligation per conjunct of the invariant: finer names, smaller queries
+				lbl := ls.mu + "@" + u.seqLabel("lock-inv", call.Pos())
+				parts := splitGoal(t)
+				for pi, pt := range parts {
+					l := lbl
+					if len(parts) > 1 {
+						l = fmt.Sprintf("%s.%d", lbl, pi+1)
+					}
+					u.oblige(st, "lock-inv", l, pt, call.Pos())
+				}
 			}
 		}
 		delete(st.held, ls.key)
